@@ -161,7 +161,31 @@ class Check(core.CheckBase):
                         del owner.post_text_encoder
                     except AttributeError:
                         pass
+        if not found:
+            found = self.purity_after_owner_edit(obj, case)
         return found
+
+    def purity_after_owner_edit(self, obj, case):
+        """The owner changes an item that sits inside a vector of the object (so that its encoded size changes) and only then are
+        the observers called: they still must not change the object - a successful compose() is no licence to rewrite bookkeeping."""
+        import copy  # pylint: disable=import-outside-toplevel
+        from cryptoparser.common.base import ArrayBase  # pylint: disable=import-outside-toplevel
+        from vmon.checks import c12  # pylint: disable=import-outside-toplevel
+        try:
+            edited = copy.deepcopy(obj)
+        except Exception:  # pylint: disable=broad-except
+            return []
+        for target in list(structural.mutable_ids(edited).values()):
+            if isinstance(target, ArrayBase) and len(target) and hasattr(target[0], '__dict__'):
+                try:
+                    changed = c12.grow(target._items[0])  # pylint: disable=protected-access
+                except Exception:  # pylint: disable=broad-except
+                    changed = False
+                if changed:
+                    self.stats['owner_edited_objects'] += 1
+                    return self.purity(edited, dict(case, owner_edit=True), 'C13/owner-edit/%s/%s/%s' % (
+                        self.seed, case.get('cls'), case.get('number')))
+        return []
 
     def judge_generated(self, case):
         """Constructed objects (vmon/gen: field combinations no test vector has - certificate chains with issuers, valued
